@@ -649,9 +649,14 @@ class Catalogue:
                 items.append((u.id, int(self.num(e))))
             self.steps.append(["new_unit", cls, sym, "term", self.fmt_uitems(None, items)])
             self.lean.append(f".unitTerm {cid} {lean_str(sym)} {self.lean_items(None, items)}")
-        elif isinstance(d, ast.BinOp) and isinstance(d.op, ast.Mult) and self.is_unit(d.right):
-            k = self.num(d.left)
-            usym = self.units[d.right.id]
+        elif isinstance(d, ast.BinOp) and isinstance(d.op, ast.Mult) and \
+                (self.is_unit(d.right) or self.is_unit(d.left)):
+            # `number * UNIT` or `UNIT * number`: the quantity `number UNIT` either
+            # way (what the translation says is compared with the imported
+            # catalogue on every run: C20's directory dump)
+            un, nu = (d.right, d.left) if self.is_unit(d.right) else (d.left, d.right)
+            k = self.num(nu)
+            usym = self.units[un.id]
             self.steps.append(["new_unit", cls, sym, "qty", f"{k.numerator}/{k.denominator}",
                                usym, "ROUND_HALF_EVEN"])
             self.lean.append(f".unitQty {cid} {lean_str(sym)} {lean_rat(k)} {self.unit_ids[usym]}")
